@@ -34,6 +34,7 @@ type World struct {
 	contractFilesInRepo map[string]string // pkg -> "repo" | "mirror"
 	assumedUsed map[string]bool
 	aliases     map[string]map[string]string // package path -> import alias -> import path
+	genericIdx  map[string]*ssa.Function
 }
 
 const contractFileName = "zz_contracts_verif.go"
@@ -244,8 +245,31 @@ func relName(abs, pkg string) string {
 	return strings.ReplaceAll(abs, pkg+".", "")
 }
 
+// stripTypeArgs removes generic instantiation brackets: (*p.Cache[*q.T]).Load[*q.T] -> (*p.Cache).Load
+func stripTypeArgs(name string) string {
+	var b strings.Builder
+	depth := 0
+	for i := 0; i < len(name); i++ {
+		switch name[i] {
+		case '[':
+			depth++
+		case ']':
+			depth--
+		default:
+			if depth == 0 {
+				b.WriteByte(name[i])
+			}
+		}
+	}
+	return b.String()
+}
+
 func (w *World) contractOf(name string) *Contract {
 	c := w.contracts[name]
+	if c == nil && strings.Contains(name, "[") {
+		// an instantiation of a generic function is specified by the contract of the generic
+		c = w.contracts[stripTypeArgs(name)]
+	}
 	if c != nil && c.Assumed {
 		w.assumedUsed[name] = true
 	}
@@ -282,9 +306,24 @@ func (w *World) lookupType(expr string, pkgPath string) (types.Type, error) {
 			return tp.Scope().Lookup("Time").Type(), nil
 		}
 	}
+	if tn, ok := types.Universe.Lookup(expr).(*types.TypeName); ok {
+		return tn.Type(), nil
+	}
+	if strings.HasPrefix(expr, "[]") {
+		if el, err := w.lookupType(expr[2:], pkgPath); err == nil {
+			return types.NewSlice(el), nil
+		}
+	}
 	tp := w.tpkgs[pkgPath]
 	if tp == nil {
-		return nil, fmt.Errorf("no package scope %q for type %q", pkgPath, expr)
+		// no scope given (assumed contract files): resolve qualified names against every known package
+		for _, p := range w.tpkgs {
+			tp = p
+			break
+		}
+		if tp == nil {
+			return nil, fmt.Errorf("no package scope %q for type %q", pkgPath, expr)
+		}
 	}
 	// qualified names may refer to packages not imported by pkgPath's files: resolve manually
 	tv, err := types.Eval(w.fset, tp, token.NoPos, expr)
@@ -345,7 +384,27 @@ func (w *World) funcOf(key string) *ssa.Function {
 	if i := strings.LastIndex(key, "@"); i >= 0 {
 		key = key[:i]
 	}
-	return w.funcs[key]
+	if f := w.funcs[key]; f != nil {
+		return f
+	}
+	// a contract on a generic function is bound to (one of) its instantiations
+	if w.genericIdx == nil {
+		w.genericIdx = map[string]*ssa.Function{}
+		var names []string
+		for n := range w.funcs {
+			if strings.Contains(n, "[") {
+				names = append(names, n)
+			}
+		}
+		sort.Strings(names)
+		for _, n := range names {
+			k := stripTypeArgs(n)
+			if _, ok := w.genericIdx[k]; !ok && len(w.funcs[n].Blocks) > 0 {
+				w.genericIdx[k] = w.funcs[n]
+			}
+		}
+	}
+	return w.genericIdx[key]
 }
 
 
